@@ -17,6 +17,17 @@ BASE = ["foo", "Foo Bar", "Î‘Î“Î©", "ÏƒÎ±Ï‚", "Î£Î‘Î£", "straÃŸe", "STRASSE", "ï
 WS = [" ", "  ", "\t", "\n", " \n ", "Â ", "â€ƒ", "ã€€", "áš€", "â€¨", "\x0b", "\x0c", "\u0085", "\r"]
 
 
+# every White_Space character (what the implementation's split_whitespace collapses), for deterministic label pairs
+ALLWS = [" ", "\t", "\n", "\x0b", "\x0c", "\r", "\u0085", "\u00a0", "\u1680", "\u2000", "\u2001", "\u2002", "\u2003", "\u2004", "\u2005", "\u2006",
+         "\u2007", "\u2008", "\u2009", "\u200a", "\u2028", "\u2029", "\u202f", "\u205f", "\u3000"]
+# lines that look like a definition of [foo] but are not one (CommonMark 4.7): [foo] must stay unresolved, a later
+# real definition must win (seed C13-8: a parenthesised title with an unescaped inner parenthesis)
+NODEF = ["[foo]: /url (see (appendix)", "[foo]: /url \"title\" ok", "[foo]: /url 'a'b'", "[foo]: /url \"unclosed", "[foo]:", "[foo] : /url", "[foo]: <bar>(baz)",
+         "[fo]o]: /url", "    [foo]: /url", "[foo]: /url (a\nb", "[foo]: /url \"a\n\nb\"", "[foo]: /url (a(b)c)", "[foo]: /url \"a\"b\"", "[foo]: /url 'x' 'y'",
+         "[foo]: /url (x) (y)", "[foo]: </url", "[foo]: <a b> c", "[foo]: /url ((a)", "[foo]: /url ()x", "[fo[o]: /u", "[foo\n\nbar]: /u", "\\[foo]: /url",
+         "[foo]: /url 'a\n\n'", "[foo]: /url (a) b)", "[foo]: /url (()", "[foo]: /url \"a\\\"", "[foo]: /url 'a\\'", "[foo]: /url (a\\)"]
+
+
 def variant(rng, s):
     k = rng.random()
     if k < 0.2:
@@ -115,6 +126,18 @@ def cases(rng, tier, Case):
                 continue
             doc = "[a%sb]: /first 'T1'\n\n[a%sb]" % (ch, other)
             res.append(Case("parse Cs 100 TR %s" % hx(doc), "resolve-cased", {"dl": "a%sb" % ch, "ul": "a%sb" % other, "form": "shortcut", "src": hx(doc), "dl2": None}))
+    for w in ALLWS:
+        for a, b in (("foo", "bar"), ("Ã©", "x"), ("A", "b c")):
+            for dl, ul in ((a + " " + b, a + w + b), (a + w + b, a + " " + b), (a + w + b, a + w + w + b), (a + b, a + w + b)):
+                if re.search(r"[\n\r][ \t]*[\n\r]", dl + "|" + ul):
+                    continue          # a blank line inside a label ends the paragraph
+                for form in ("shortcut", "full"):
+                    use = "[t][%s]" % ul if form == "full" else "[%s]" % ul
+                    for doc in ("[%s]: /first 'T1'\n\n%s" % (dl, use), "%s\n\n[%s]: /first 'T1'" % (use, dl)):
+                        res.append(Case("parse Cs 100 TR %s" % hx(doc), "resolve-ws", {"dl": dl, "ul": ul, "form": form, "src": hx(doc), "dl2": None}))
+    for nd in NODEF:
+        for doc, real in ((nd + "\n\n[foo]", 0), (nd + "\n\n[foo]: /real\n\n[foo]", 1), ("[foo]\n\n" + nd, 0), ("> " + nd.replace("\n", "\n> ") + "\n\n[foo]", 0)):
+            res.append(Case("parse Cs 100 TR %s" % hx(doc), "nodef", {"nodef": real, "src": hx(doc), "dl": "foo", "ul": "foo"}))
     # definitions / uses whose scanning has to count lines or fall back from an inline attempt: decided by the correspondence
     for doc in ["[foo\\\nbar]: /url\n[x]: /y\n\n[foo\\\nbar] [x]", "[foo\\\nbar]: /url\n\n[foo\\\nbar]", "[a\nb\nc]: /u\n'T\nU'\n[x]: /y\n\n[a b c] [x]",
                 "[foo](/url [bar]\n\n[bar]: /b 'T'\n[foo]: /f", "![foo](/url \"t\" [bar]\n\n[bar]: /b", "[foo](<u> [bar][baz]\n\n[bar]: /b\n[baz]: /z\n[foo]: /f",
@@ -134,6 +157,13 @@ def oracle(case, io, mo):
         return None
     f = fields(io)
     nodes = parse_tree(f["tree"])
+    if "nodef" in p:
+        links = [n for n in nodes if n.kind == "Link"]
+        if p["nodef"] == 0 and links:
+            return "[foo] resolves (to %r) although the document holds no well-formed definition of it" % text_arg(links[0], 0)
+        if p["nodef"] == 1 and (not links or any(text_arg(l, 0) != b"/real" for l in links)):
+            return "[foo] does not resolve to the only well-formed definition (/real): %r" % [text_arg(l, 0) for l in links]
+        return None
     dl, ul = p["dl"], p["ul"]
     if not (stable(dl) and stable(ul)):
         return None
